@@ -10,6 +10,7 @@ package ack
 // to program state (they are closures of the packet processor and of the writer) but touch the pipeline's
 // ghost counters only as declared.
 //@ func (Queue).Insert(q Queue, prefix string, pkt packet.Packet, deadline time.Time, callback Callback) (err error)
+//@   requires callback != nil
 //@   modifies #inserts, #lastInsertPkt, #lastInsertPrefix
 //@   ensures err == nil ==> #inserts == old(#inserts) + 1 && #lastInsertPkt == pkt && #lastInsertPrefix == prefix
 //@   ensures err != nil ==> #inserts == old(#inserts) && #lastInsertPkt == old(#lastInsertPkt) && #lastInsertPrefix == old(#lastInsertPrefix)
@@ -57,7 +58,7 @@ package ack
 //@ trusted func (packet.Packet).Type(p packet.Packet) (t byte)
 //@   pure
 //@ pred wf_queue(q *queue) := q != nil && q.msg != nil && q.timeouts != nil
-//@       && (forall x Iface :: #tab[x] ==> typeis(#tabv[x], message))
+//@       && (forall x Iface :: #tab[x] ==> typeis(#tabv[x], message) && unbox(#tabv[x], message).callback != nil)
 //@ immutable queue.msg, timeouts
 
 // C04: an acknowledgement resolves the entry registered under (prefix, identifier) when, and only when, it is of the packet
@@ -89,7 +90,7 @@ package ack
 // C04: registering an exchange adds exactly one entry keyed by (prefix, identifier), waiting for the packet type that answers
 // pkt, with its timeout; a duplicate identifier (or an unusable packet) is rejected and nothing changes. No callback runs.
 //@ func (*queue).Insert(prefix string, pkt packet.Packet, deadline time.Time, callback Callback) (err error)
-//@   requires wf_queue(q)
+//@   requires wf_queue(q) && callback != nil
 //@   requires typeis(pkt, *packet.PubRec) ==> unbox(pkt, *packet.PubRec) != nil
 //@   requires typeis(pkt, *packet.PubRel) ==> unbox(pkt, *packet.PubRel) != nil
 //@   requires typeis(pkt, *packet.Publish) ==> unbox(pkt, *packet.Publish) != nil && unbox(pkt, *packet.Publish).Header != nil
@@ -113,3 +114,9 @@ package ack
 //@ callsite (*queue).Expire -> message.callback(expired bool, stored packet.Packet, received packet.Packet)
 //@   requires [C20] #lastDelOk
 //@   requires expired && received == nil && !#tab[asiface(key)]
+
+// C04: the key of an in-flight entry is "<session id>/<packet id>": the separator keeps (s1, 12) and (s11, 2) apart. The
+// injectivity of key_of (assumed above) rests on this very format -- a '/' followed by digits only ends the key -- so the
+// format string is pinned: a change of it has to be justified again.
+//@ callsite hashKey -> fmt.Sprintf(format string, a []interface{})
+//@   requires [C04] format == "%s/%d" && len(a) == 2
